@@ -799,6 +799,7 @@ func coordinate(c *Check, tier string, seed int) int {
 		return len(viols[i].Choices)+len(viols[i].History) < len(viols[j].Choices)+len(viols[j].History)
 	})
 	reported := 0
+	var unconfirmed []string
 	for i := range viols {
 		if reported >= 3 {
 			break
@@ -834,13 +835,21 @@ func coordinate(c *Check, tier string, seed int) int {
 			}
 		}
 		if !okAll {
-			fmt.Fprintf(os.Stderr, "BROKEN: violation of %s (%s: %s) does not reproduce deterministically; treating the check as broken, not the property\n", c.ID, v.Kind, v.Detail)
-			return 2
+			// not believed: reported only if nothing else confirms (then the check is broken, not the property)
+			unconfirmed = append(unconfirmed, fmt.Sprintf("%s: %s", v.Kind, v.Detail))
+			continue
 		}
 		fmt.Printf("violation: scenario=%s kind=%s\n  %s\n", v.Name, v.Kind, v.Detail)
 		fmt.Printf("VIOLATION property=%s replay=%s\n", c.ID, path)
 		reported++
 		exit = 1
+	}
+	for _, u := range unconfirmed {
+		fmt.Fprintf(os.Stderr, "note: a reported violation of %s did not reproduce on replay and is not counted: %s\n", c.ID, trunc(u, 300))
+	}
+	if reported == 0 && exit == 0 && len(unconfirmed) > 0 {
+		fmt.Fprintf(os.Stderr, "BROKEN: violation of %s (%s) does not reproduce deterministically; treating the check as broken, not the property\n", c.ID, trunc(unconfirmed[0], 300))
+		return 2
 	}
 	ids := make([]string, 0, len(known))
 	for id := range known {
